@@ -200,6 +200,9 @@ class TileManager(object):
         for tile in tiles:
             if self._is_tile_missing(tile, cache_only, dimensions=dimensions):
                 uncached_tiles.append(tile)
+            elif tile.is_missing():
+                # tile was stored by another thread/process after we tried to load it
+                self.cache.load_tile(tile, with_metadata, dimensions=dimensions)
 
         if uncached_tiles:
             creator = self.creator(dimensions=dimensions)
